@@ -391,9 +391,30 @@ func c02Registration(r *core.Run, idx int, rng *rand.Rand) {
 		mustRegister(e.W, &d2, "appA")
 	}
 	reg()
+	e.W.NilForUnknown = rng.Intn(2) == 0
 	for k := 0; k < 8; k++ {
 		if rng.Intn(3) == 0 {
 			version++
+			reg()
+		}
+		if k > 0 && rng.Intn(4) == 0 {
+			// the requester's registration is revoked: whatever was known about it before, a request in its name is
+			// neither persisted nor answered at any of its former endpoints
+			e.W.RemoveSP(d.EntityID)
+			var call *env.Call
+			if rng.Intn(2) == 0 {
+				a := validAuthn(rng, d)
+				s := ssoSend{Binding: []string{"redirect", "post"}[rng.Intn(2)], XML: a.XML(rng), HasRelay: true, Relay: "MKrelay"}
+				call, _ = s.do(e)
+			} else {
+				l := conformantLogout(rng, d)
+				s := ssoSend{Path: env.PathSLO, Binding: []string{"redirect", "post"}[rng.Intn(2)], XML: l.XML(rng), HasRelay: true, Relay: "MKrelay"}
+				call, _ = s.do(e)
+			}
+			r.Count("requests_in_the_name_of_a_revoked_registration", 1)
+			if call.Panic == "" && (call.Accepted() || call.D.Kind == "form" || call.D.Kind == "redirect") {
+				r.Violate(core.Violation{Clause: "delivered_although_requester_unknown", Class: fmt.Sprintf("registration|step=%d|revoked", k), Reason: fmt.Sprintf("the requester's registration was revoked, yet the request was persisted (%v) or answered by %s delivery to %q", call.Accepted(), call.D.Kind, call.D.Target), Workload: wl, Index: idx, Observed: call.Describe()})
+			}
 			reg()
 		}
 		a := validAuthn(rng, d)
